@@ -34,6 +34,7 @@ import (
 	"strconv"
 	"strings"
 	"sync"
+	"sync/atomic"
 	"time"
 )
 
@@ -463,7 +464,7 @@ func (req *Request) write(w io.Writer, usingProxy bool, extraHeaders Header) err
 	if err != nil {
 		return err
 	}
-	req.State.BodySize = uint32(n)
+	atomic.StoreUint32(&req.State.BodySize, uint32(n))
 
 	if bw != nil {
 		return bw.Flush()
